@@ -617,7 +617,10 @@ class GetDescriptorHandlerMux(Elaboratable):
                 handler.start_position  .eq(self.start_position),
             ]
             stall_latch = Signal(name=f"stall_latch_{i}")
-            m.d.comb += stalled[i].eq(handler.stall | stall_latch)
+
+            # A stall latched during an earlier request is stale once a new request starts: it is only cleared
+            # at the end of the start cycle, so it must not count during that cycle.
+            m.d.comb += stalled[i].eq(handler.stall | (stall_latch & ~self.start))
             with m.If(self.start | self.stall):
                 m.d.sync += stall_latch.eq(0)
             with m.If(handler.stall & ~self.stall):
